@@ -18,6 +18,9 @@ pub struct Unit {
     pub len: usize,
     /// long/short names (first spelling) of arguments that get an echoing completer
     pub completers: Vec<String>,
+    /// defaulted items use `fallback_with` instead of `fallback`
+    #[serde(default)]
+    pub fallback_with: bool,
 }
 
 /// wrap selected argument leaves in `.complete(echo)`
@@ -39,6 +42,22 @@ fn add_completers(p: &mut P, which: &[String]) {
 pub fn build_unit(u: &Unit) -> Opts {
     let mut o = u.level.to_opts();
     add_completers(&mut o.p, &u.completers);
+    if u.fallback_with {
+        // `fallback_with(|| Ok(v))` is the same parser as `fallback(v)`
+        fn swap(p: &mut P) {
+            if let P::Fallback(x, v, _) = p {
+                let inner = (**x).clone();
+                *p = P::FallbackWith(inner.bx(), Ok(v.clone()));
+            }
+            match p {
+                P::Cmd { inner, .. } => swap(&mut inner.p),
+                P::Seq(v) | P::Alt(v) | P::Adj(v) => v.iter_mut().for_each(swap),
+                P::Optional(x, _) | P::Many(x, _) | P::Some_(x, _) | P::Hide(x) | P::FallbackWith(x, _) | P::Complete(x, _, _) => swap(x),
+                _ => {}
+            }
+        }
+        swap(&mut o.p);
+    }
     o
 }
 
@@ -381,7 +400,15 @@ impl Check for C14 {
                 l.named[0].hidden = true;
             }
             let completers: Vec<String> = if j % 2 == 0 { l.named.iter().filter(|n| n.kind.is_arg()).map(|n| n.names.preferred()).collect() } else { vec![] };
-            out.push(serde_json::to_value(Unit { level: l, len: tier.pick(2, 3), completers }).unwrap());
+            out.push(serde_json::to_value(Unit { level: l, len: tier.pick(2, 3), completers, fallback_with: j % 4 == 1 }).unwrap());
+        }
+        // non-ASCII short and long names
+        for k1 in [Kind::Switch, Kind::ArgOpt, Kind::Count] {
+            for k2 in [Kind::ArgReq, Kind::ReqFlag] {
+                let a = Named { names: Names::both('ä', "änderung"), kind: k1, hidden: false, ty: Ty::Os, adjacent: false };
+                let b = Named { names: Names::short('ß'), kind: k2, hidden: false, ty: Ty::Os, adjacent: false };
+                out.push(serde_json::to_value(Unit { level: fam::leaf(vec![a, b], Tail::None), len: tier.pick(2, 3), completers: vec![], fallback_with: false }).unwrap());
+            }
         }
         out
     }
@@ -404,7 +431,7 @@ impl Check for C14 {
             &mut |l, _| {
                 for n in &l.named {
                     if let Some(lg) = n.names.longs.first() {
-                        for k in 0..=lg.len() {
+                        for k in (0..=lg.len()).filter(|k| lg.is_char_boundary(*k)) {
                             typed.push(Tok::s(&format!("--{}", &lg[..k])));
                         }
                         if n.kind.is_arg() {
@@ -447,7 +474,7 @@ impl Check for C14 {
         }
     }
     fn rule(&self) -> String {
-        "definitions = conventional levels (<=2 named items of all 10 kinds, naming styles incl. aliases; tails none / positionals / command trees of depth 3 with aliases, optional and defaulted choices); every third definition hides its first item, every second attaches an echoing completer (input+\"1\", input+\"2\") to every argument; inputs = every vector of the token tree as the already typed part x every typed last word from {empty, -, --, every prefix of every long name, every short name, --name=, --name=pre, command prefixes, plain words}; revision 0 through set_comp and (for short lines) through the --bpaf-complete-rev=0 marker; (a) the outcome is completion output for every line; (b) every candidate is the preferred spelling of a visible matching name of the active or an enclosing level, a value of the completer of the item being typed, or a metavariable placeholder - never a hidden item or a name below a command not entered; (c) on a fresh prefix every visible name of the active level that extends it and is not already given (single-use) is offered, commands when no word precedes, completer values for the item being typed; the active level / given set / pending value come from a reference scan of the typed part; lines the scan cannot classify (unknown names, clusters, separator) are only held to (a); state = (definition, line)".into()
+        "definitions = conventional levels (<=2 named items of all 10 kinds, naming styles incl. aliases; tails none / positionals / command trees of depth 3 with aliases, optional and defaulted choices); every third definition hides its first item, every fourth writes its defaults with fallback_with, a few use non-ASCII names, every second attaches an echoing completer (input+\"1\", input+\"2\") to every argument; inputs = every vector of the token tree as the already typed part x every typed last word from {empty, -, --, every prefix of every long name, every short name, --name=, --name=pre, command prefixes, plain words}; revision 0 through set_comp and (for short lines) through the --bpaf-complete-rev=0 marker; (a) the outcome is completion output for every line; (b) every candidate is the preferred spelling of a visible matching name of the active or an enclosing level, a value of the completer of the item being typed, or a metavariable placeholder - never a hidden item or a name below a command not entered; (c) on a fresh prefix every visible name of the active level that extends it and is not already given (single-use) is offered, commands when no word precedes, completer values for the item being typed; the active level / given set / pending value come from a reference scan of the typed part; lines the scan cannot classify (unknown names, clusters, separator) are only held to (a); state = (definition, line)".into()
     }
     fn bounds(&self, tier: Tier) -> Value {
         json!({"typed_part_length": tier.pick(2, 3), "typed_words": "18 fixed + all prefixes of all names"})
